@@ -184,6 +184,8 @@ def encode_op(op):
     if k == 'alltrp':
         _, r, st, en, mt = op
         return [62, r, *_o(st), *_o(en), *_o(mt)]
+    if k == 'trpsample':
+        return [65, op[1]]
     if k == 'annotate':
         flat = []
         for p in op[2]:
@@ -382,6 +384,8 @@ def decode_res(op, ints, directed_of):
         sources, i = occs(i, 2)
         targets, i = occs(i, 2)
         return dict(edges=sorted(((a, b), (c, d)) for a, b, c, d in edges), sources=sorted(sources), targets=sorted(targets))
+    if k == 'trpsample':
+        return 'subset-ok'
     if k in ('trp', 'alltrp'):
         if ints[0] == -1:
             return 'ValueError'
@@ -811,6 +815,21 @@ class Impl:
             except Exception as x:
                 return _exc_name(x)
             return _canon_paths(res, I)
+        if k == 'trpsample':
+            import numpy as np
+            from dynetx.algorithms import paths as al
+            _, r, u, v, st, en, frac, seed = op
+            try:
+                full = _canon_paths(al.time_respecting_paths(G, I.to(u), None if v is None else I.to(v), start=st, end=en), I)
+                np.random.seed(seed)
+                sub = _canon_paths(al.time_respecting_paths(G, I.to(u), None if v is None else I.to(v), start=st, end=en, sample=frac), I)
+            except ValueError:
+                return 'subset-ok'
+            except Exception as x:
+                return _exc_name(x)
+            if isinstance(full, list) and isinstance(sub, list) and set(sub) <= set(full):
+                return 'subset-ok'
+            return 'NOT-SUBSET:%r' % ([p for p in sub if p not in full][:2] if isinstance(sub, list) else sub,)
         if k == 'alltrp':
             from dynetx.algorithms import paths as al
             _, r, st, en, mt = op
